@@ -255,7 +255,7 @@ theorem propElt_render : ∀ (p : PProp) (env : Env) (s : Term BN) (li : Nat) (s
     · rename_i hc
       simp only [Bool.and_eq_true, decide_eq_true_eq, ne_eq, decide_not, Bool.not_eq_true',
         decide_eq_false_iff_not] at hc
-      obtain ⟨⟨hn, hlex⟩, hdt⟩ := hc
+      obtain ⟨⟨⟨⟨hn, hlex⟩, hdt⟩, hnl⟩, hnd⟩ := hc
       obtain ⟨hn1, hn2, hn3⟩ := wfName_facts li nm hn
       cases hid : wfId rs (env.push rs sc.base sc.lang) id st with
       | none => rw [hid] at h; exact absurd h (by simp)
@@ -268,7 +268,7 @@ theorem propElt_render : ∀ (p : PProp) (env : Env) (s : Term BN) (li : Nat) (s
         simp only [hn1, if_false, hn2, hn3, hoid]
         cases lex with
         | nil => exact absurd rfl hlex
-        | cons c cs => simp [textOnly, flatProp, hdt, h.1, h.2]
+        | cons c cs => simp [textOnly, flatProp, hdt, hnl, hnd, h.1, h.2]
     · exact absurd h (by simp)
   | .empty sc nm id lang, env, s, li, st, li', st', h => by
     simp only [wfProp] at h
